@@ -1,4 +1,179 @@
-(* placeholder until C06/Proofs*.v land: nothing is claimed proved yet *)
-From V Require Import C06.Glue.
-Theorem c06_placeholder : True. Proof. exact I. Qed.
-Print Assumptions c06_placeholder.
+(* C06 - counter measurements are conserved across readers, temporalities and threads.
+   Statements about the model coq/C06/Model.v; proofs in coq/C06/Proofs*.v.
+
+   Storage level (one SyncMetricStorage + TemporalMetricStorage = one stream): K is the type of attribute sets with a
+   correct equality test, [mono] says whether the instrument is monotonic, n is the number of registered readers,
+   [temps r] the temporality of reader r.  A history [hr] is ANY sequence (newest first) of the storage's atomic
+   operations SAdd k v (one Record* under attribute_hashmap_lock_) and SCol r ts (the swap + buildMetrics of a Collect by
+   reader r at time ts): every interleaving of recorder and collector threads is such a sequence.  [hist_wf] only asks
+   that collecting readers are registered (r < n).  [out_at hr r ts] is the MetricData a Collect by r returns after hr,
+   [outs hr] everything the callbacks were given during hr, [adds_all hr] / [adds_since r hr] the measurements of the
+   whole history / since r's latest collection; [pointv o k] is the value o carries for attribute set k (0 if none),
+   [sumv k l] the sum of the measurements of k in l.  Timestamps are arbitrary integers supplied with each collection
+   (a clock oracle); the theorems relate them by equality only. *)
+From V Require Import C06.Model C06.Spec C06.Glue C06.ProofsTable C06.ProofsStorage C06.ProofsReaders C06.ProofsWorld
+     C06.ProofsSpec C06.ProofsMeets C06.ProofsFinal.
+Local Open Scope Z_scope.
+
+(* Sum Merge is associative and commutative with the fresh aggregation as unit ... *)
+Theorem sum_merge_assoc_comm_unit : forall a b c,
+  sum_merge a (sum_merge b c) = sum_merge (sum_merge a b) c /\ sum_merge a b = sum_merge b a /\
+  sum_merge a 0 = a /\ sum_merge 0 a = a.
+Proof. exact (fun a b c => conj (sum_merge_assoc a b c) (conj (sum_merge_comm a b) (sum_merge_unit a))). Qed.
+Print Assumptions sum_merge_assoc_comm_unit.
+
+(* ... and so is the merge of whole attribute tables, up to the order of the series *)
+Theorem table_merge_assoc_comm_unit : forall (K : Type) (keqb : K -> K -> bool),
+  (forall a b : K, keqb a b = true <-> a = b) ->
+  forall (a b c : table K) (k : K),
+    hsum K keqb k (tmerge K keqb a (tmerge K keqb b c)) = hsum K keqb k (tmerge K keqb (tmerge K keqb a b) c) /\
+    hsum K keqb k (tmerge K keqb a b) = hsum K keqb k (tmerge K keqb b a) /\
+    tmerge K keqb a [] = a /\ hsum K keqb k (tmerge K keqb [] a) = hsum K keqb k a.
+Proof.
+  exact (fun K keqb ok a b c k =>
+           conj (tmerge_assoc_equiv K keqb ok a b c k)
+                (conj (tmerge_comm_equiv K keqb ok a b k)
+                      (conj (proj1 (tmerge_unit K keqb ok a)) (proj2 (tmerge_unit K keqb ok a) k)))).
+Qed.
+Print Assumptions table_merge_assoc_comm_unit.
+
+(* delta: right after any collection by a delta reader, the points it has received for an attribute set over all its
+   collections add up exactly to what was recorded for that set - whatever the other readers did, however Adds and
+   Collects were interleaved *)
+Theorem delta_conservation : forall (K : Type) (keqb : K -> K -> bool),
+  (forall a b : K, keqb a b = true <-> a = b) ->
+  forall (mono : bool) (n : nat) (temps : nat -> temporality) (hr : list (sop K)) (r : nat) (ts : Z) (k : K),
+    hist_wf K n hr -> (r < n)%nat -> temps r = Delta ->
+    recv K keqb r k (outs K keqb mono n temps (SCol r ts :: hr)) = sumv K keqb k (adds_all K mono hr).
+Proof. exact delta_conservation. Qed.
+Print Assumptions delta_conservation.
+
+(* ... and at any moment: received so far + recorded since the reader's latest collection = recorded so far *)
+Theorem delta_conservation_at_any_time : forall (K : Type) (keqb : K -> K -> bool),
+  (forall a b : K, keqb a b = true <-> a = b) ->
+  forall (mono : bool) (n : nat) (temps : nat -> temporality) (hr : list (sop K)) (r : nat) (k : K),
+    hist_wf K n hr -> (r < n)%nat -> temps r = Delta ->
+    recv K keqb r k (outs K keqb mono n temps hr) + sumv K keqb k (adds_since K mono r hr) = sumv K keqb k (adds_all K mono hr).
+Proof. exact delta_conservation_general. Qed.
+Print Assumptions delta_conservation_at_any_time.
+
+(* each measurement falls in exactly one collection interval of a delta reader: the reader's intervals (the measurements
+   between its successive collections) and what it has not collected yet partition the list of all measurements, and
+   the point it received at each collection is the sum of exactly that interval *)
+Theorem each_measurement_in_exactly_one_interval : forall (K : Type) (keqb : K -> K -> bool),
+  (forall a b : K, keqb a b = true <-> a = b) ->
+  forall (mono : bool) (n : nat) (temps : nat -> temporality) (hr : list (sop K)) (r : nat) (k : K),
+    hist_wf K n hr -> (r < n)%nat -> temps r = Delta ->
+    delta_points K keqb mono n temps r k hr = map (sumv K keqb k) (intervals K mono r hr) /\
+    adds_all K mono hr = adds_since K mono r hr ++ concat (intervals K mono r hr).
+Proof. exact each_measurement_in_exactly_one_interval. Qed.
+Print Assumptions each_measurement_in_exactly_one_interval.
+
+(* cumulative: every collection reports the running total of everything recorded since SDK start ... *)
+Theorem cumulative_is_running_total : forall (K : Type) (keqb : K -> K -> bool),
+  (forall a b : K, keqb a b = true <-> a = b) ->
+  forall (mono : bool) (n : nat) (temps : nat -> temporality) (hr : list (sop K)) (r : nat) (ts : Z) (k : K),
+    hist_wf K n hr -> (r < n)%nat -> temps r = Cumulative ->
+    pointv K keqb (out_at K keqb mono n temps hr r ts) k = sumv K keqb k (adds_all K mono hr).
+Proof. exact cumulative_point_is_running_total. Qed.
+Print Assumptions cumulative_is_running_total.
+
+(* ... in a MetricData that is there as soon as anything was ever recorded *)
+Theorem cumulative_reports_once_recorded : forall (K : Type) (keqb : K -> K -> bool),
+  (forall a b : K, keqb a b = true <-> a = b) ->
+  forall (mono : bool) (n : nat) (temps : nat -> temporality) (hr : list (sop K)) (r : nat) (ts : Z),
+    hist_wf K n hr -> (r < n)%nat -> temps r = Cumulative -> adds_all K mono hr <> [] ->
+    out_at K keqb mono n temps hr r ts <> None.
+Proof. exact cumulative_reports_once_recorded. Qed.
+Print Assumptions cumulative_reports_once_recorded.
+
+(* one reader's collection never takes measurements away from another: what reader r is given is the same (same
+   temporality, same interval, same value for every attribute set) in any two histories that agree on the measurements
+   and on r's own collections - in particular in the history from which all other readers' collections are removed *)
+Theorem readers_independent : forall (K : Type) (keqb : K -> K -> bool),
+  (forall a b : K, keqb a b = true <-> a = b) ->
+  forall (mono : bool) (n : nat) (temps : nat -> temporality) (hr hr' : list (sop K)) (r : nat) (ts : Z),
+    hist_wf K n hr -> hist_wf K n hr' -> (r < n)%nat -> own K r hr = own K r hr' ->
+    md_equiv K keqb (out_at K keqb mono n temps hr r ts) (out_at K keqb mono n temps hr' r ts).
+Proof. exact readers_independent. Qed.
+Print Assumptions readers_independent.
+
+Theorem readers_independent_alone : forall (K : Type) (keqb : K -> K -> bool),
+  (forall a b : K, keqb a b = true <-> a = b) ->
+  forall (mono : bool) (n : nat) (temps : nat -> temporality) (hr : list (sop K)) (r : nat) (ts : Z),
+    hist_wf K n hr -> (r < n)%nat ->
+    md_equiv K keqb (out_at K keqb mono n temps hr r ts) (out_at K keqb mono n temps (own K r hr) r ts).
+Proof. exact readers_independent_alone. Qed.
+Print Assumptions readers_independent_alone.
+
+(* a reader's successive delta MetricData cover abutting intervals: each starts where the previous one this reader was
+   given ended, the first at SDK start, and ends at the collection time *)
+Theorem delta_intervals_abut : forall (K : Type) (keqb : K -> K -> bool),
+  (forall a b : K, keqb a b = true <-> a = b) ->
+  forall (mono : bool) (n : nat) (temps : nat -> temporality) (hr : list (sop K)) (r : nat) (ts : Z) (md : mdata K),
+    hist_wf K n hr -> (r < n)%nat -> temps r = Delta -> out_at K keqb mono n temps hr r ts = Some md ->
+    md_start md = last_end K r (outs K keqb mono n temps hr) /\ md_end md = ts.
+Proof. exact delta_intervals_abut. Qed.
+Print Assumptions delta_intervals_abut.
+
+(* cumulative MetricData always start at SDK start *)
+Theorem cumulative_starts_at_sdk_start : forall (K : Type) (keqb : K -> K -> bool),
+  (forall a b : K, keqb a b = true <-> a = b) ->
+  forall (mono : bool) (n : nat) (temps : nat -> temporality) (hr : list (sop K)) (r : nat) (ts : Z) (md : mdata K),
+    hist_wf K n hr -> (r < n)%nat -> temps r = Cumulative -> out_at K keqb mono n temps hr r ts = Some md ->
+    md_start md = sdk_start /\ md_end md = ts /\ md_temp md = Cumulative.
+Proof. exact cumulative_starts_at_sdk_start. Qed.
+Print Assumptions cumulative_starts_at_sdk_start.
+
+(* SDK level.  every_handle_counts, at full strength: forall c ops, case_wf c ops = true -> spec_run c ops (run c ops) = [].
+   REFUTED by the faithful model (F13): creating the same counter twice orphans the first handle's storage
+   (storage_registry_ is keyed by the instrument name): 10 through handle 0 and 1 through handle 1 are reported as 1 *)
+Theorem every_handle_counts_refuted :
+  case_wf f13_cfg f13_ops = true /\
+  run f13_cfg f13_ops = [(0%nat, [mkSData 0 c1 LongCounter (mkMD Cumulative 0 5 [([], 1)])])] /\
+  spec_run f13_cfg f13_ops (run f13_cfg f13_ops) = fail "every_handle_counts:duplicate_instrument".
+Proof. exact every_handle_counts_refuted_lemma. Qed.
+Print Assumptions every_handle_counts_refuted.
+
+(* every_view_stream_collected, at full strength: the same statement.  REFUTED (F14): of two views matching one
+   instrument only the last one's stream is registered; the stream "v1" is never reported *)
+Theorem every_view_stream_collected_refuted :
+  case_wf f14_cfg f14_ops = true /\
+  run f14_cfg f14_ops = [(0%nat, [mkSData 0 (bs "v2") LongCounter (mkMD Cumulative 0 3 [([], 3)])])] /\
+  spec_run f14_cfg f14_ops (run f14_cfg f14_ops) = fail "every_view_stream_collected:two_views".
+Proof. exact every_view_stream_collected_refuted_lemma. Qed.
+Print Assumptions every_view_stream_collected_refuted.
+
+(* the partial versions: in every script in which no instrument is created twice and exactly one view (or the default
+   view) applies to every instrument ([case_good]), every handle is backed by exactly one storage, that storage is
+   registered for collection, carries the stream name of the view, and its state is the state reached by the handle's own
+   measurements and all collections since its creation - to which all storage-level theorems above apply *)
+Theorem every_handle_counts_partial : forall (c : config) (ops : list op),
+  case_good c ops = true ->
+  forall (h m : nat) (k : ikind) (name : bytes),
+    nth_error (newsr (rev (timed ops))) h = Some (m, k, name) ->
+    nth_error (w_handles (wrun c world0 1 ops)) h = Some (k, [h]) /\
+    In (m, name, h) (w_reg (wrun c world0 1 ops)) /\
+    nth_error (w_stor (wrun c world0 1 ops)) h =
+      Some (mkSD m name (sname c (m, k, name)) k,
+            state akey akey_eqb (is_mono k) (nreaders c) (temp_of c) (projh h k (rev (timed ops)))).
+Proof. exact good_world. Qed.
+Print Assumptions every_handle_counts_partial.
+
+(* model_meets_spec: on every such script the SPEC (coq/C06/Spec.v: per reader, stream and attribute set, the sums of the
+   measurements per interval / since SDK start, abutting delta intervals, cumulative start, nothing but the configured
+   streams) accepts everything the model's readers are given.  This is also every_view_stream_collected_partial. *)
+Theorem model_meets_spec : forall (c : config) (ops : list op),
+  case_good c ops = true -> spec_run c ops (run c ops) = [].
+Proof. exact model_meets_spec_lemma. Qed.
+Print Assumptions model_meets_spec.
+
+Theorem every_view_stream_collected_partial : forall (c : config) (ops : list op),
+  case_good c ops = true -> spec_run c ops (run c ops) = [].
+Proof. exact model_meets_spec_lemma. Qed.
+Print Assumptions every_view_stream_collected_partial.
+
+(* the hypotheses are satisfiable: a script with two readers of different temporality, two meters, a renaming view *)
+Theorem good_case_exists : case_good ex_cfg ex_ops = true /\ length (run ex_cfg ex_ops) = 4%nat.
+Proof. exact good_case_exists. Qed.
+Print Assumptions good_case_exists.
